@@ -442,6 +442,44 @@ def rule_r6(repo, run):
                           % (t, own.replace("_", "-"), mm.seg(node.value)), mm.loc(node),
                           sample=dict(directory=t, value=mm.seg(node.value)))
     run.floor(R, "output directory assignments", nd, 4)
+    # promotion keeps the languages apart: each flag of a container is or-ed with the same flag of the child
+    wfl = am.func("WrapFlags.accumulate")
+    other = wfl.args.args[1].arg
+    na = 0
+    for a in ast.walk(wfl):
+        if isinstance(a, ast.Assign) and isinstance(a.targets[0], ast.Attribute) and pyflow.is_name(a.targets[0].value, "self"):
+            na += 1
+            flag = a.targets[0].attr
+            ok = pat.match(pat.parse("self.%s = self.%s or %s.%s" % (flag, flag, other, flag))[1], a, {})
+            run.check(R, "ast.WrapFlags.accumulate:%s" % flag, ok,
+                      "`%s`: a container's %s flag must be or-ed with the child's %s flag and nothing else (a child's "
+                      "flag of another language switches this language on, or fails to)" % (am.seg(a), flag, flag), am.loc(a))
+    run.floor(R, "flags accumulated", na, 4)
+    # a pass that restricts its clone to C/Fortran leaves the Python/Lua flags of the original alone
+    gm = repo.module("generate")
+    nr = 0
+    for q, fn in sorted(gm.functions().items()):
+        if not q.startswith("GenFunctions."):
+            continue
+        clones = [e["N"] for _, e in pat.find(fn, "MV_N = MV_O.clone()")]
+        restricted = False
+        for cn in set(clones):
+            if pat.has(fn, "%s.wrap.assign(c=..., fortran=...)" % cn) or pat.has(fn, "%s.wrap.assign(...)" % cn) and not \
+                    any(k.arg in ("python", "lua") for c in ast.walk(fn) if isinstance(c, ast.Call)
+                        and (pyflow.call_name(c) or "") == "%s.wrap.assign" % cn for k in c.keywords):
+                restricted = True
+            if pat.has(fn, "%s.wrap.clear()" % cn) and (pat.has(fn, "%s.wrap.c = MV_X" % cn) or pat.has(fn, "%s.wrap.fortran = MV_X" % cn)):
+                restricted = True
+        if not restricted:
+            continue
+        nr += 1
+        src = fn.args.args[1].arg if len(fn.args.args) > 1 else "node"
+        wipes = pat.find(fn, "%s.wrap.clear()" % src)
+        run.check(R, "generate.%s:%s.wrap.clear()" % (q, src), not wipes,
+                  "the clone made by this pass is wrapped for C/Fortran only, but the original declaration gets all its "
+                  "wrap flags cleared: it disappears from the Python and Lua modules although those wrappers are on "
+                  "(switching C/Fortran changes the Python/Lua output)", gm.loc(wipes[0][0]) if wipes else gm.loc(fn))
+    run.floor(R, "passes with a C/Fortran-only clone", nr, 2)
 
 
 def rule_x(repo, run):
